@@ -44,7 +44,8 @@ TrueArea2(sh) == SumShape(sh, PolyArea2, 1)
 CenNum(sh, ax) == SumShape(sh, LAMBDA pg : PolyNum(pg, ax), 1)
 CenDen(sh) == 3 * TrueArea2(sh)
 (* recorded centroid coordinate times K (rounded) agrees with N / D to within 2 / K *)
-CenClose(vK, num, den) == AbsI(vK * den - num * K) <= 2 * AbsI(den)
+(* (a reported value beyond 1000 units is no centroid of a catalogue shape, and must not reach the 32-bit product) *)
+CenClose(vK, num, den) == AbsI(vK) <= 1000 * K /\ AbsI(vK * den - num * K) <= 2 * AbsI(den)
 
 (* validity of a polygon: simple rings, holes strictly inside the shell, rings pairwise disjoint *)
 RingsDisjoint(r, s) == \A i \in 1..Len(r), j \in 1..Len(s) : ~SegsMeet(r[i], RingNext(r, i), s[j], RingNext(s, j))
